@@ -24,7 +24,8 @@ EXPLANATION = (
     "is one increment per collected error keyed by reason code and both backends derive the check identifier by the "
     "same chain; (R6) where a parsing call is fenced by `except E`, every schema exception class in the raise-set of "
     "the resolved callees is caught by E; (R7) every site writing the `column` key of reported failure cases takes the "
-    "component name as is - None tests only, never a truthiness fallback (names 0 / '' are legal). NOT decided: equality of failure_cases with the set of offending cells."
+    "component name as is - None tests only, never a truthiness fallback (names 0 / '' are legal). (R8) every regex-matched column is validated against its own renamed schema copy, so collected errors name their own column; (R9) pandas consolidate_failure_cases attributes a tabular case to its own `column` label, then the error's column_name, then the schema name, and the ErrorHandler accessors hand out exactly what was collected. " 
+    "NOT decided: equality of failure_cases with the set of offending cells."
 )
 LEVEL_RULE = "one obligation per handler / lazy use / validate method / fenced call"
 FLOORS = {"R1": 4, "R2": 20, "R3": 12, "R4": 6, "R5": 3, "R6": 6, "R7": 5, "R8": 1, "R9": 3}
